@@ -62,7 +62,7 @@ def run(tier, replay):
             rbin = checklib.go_test_build(cid, SPEC["pkg"], ov2, out=os.path.join(checklib.build_dir(cid), "t-race.bin"), race=True)
             rdir = os.path.join(scratch, "race")
             rreps = checklib.run_workers(cid, rbin, "TestVerifC04Race", tier, 8, 600, rdir, extra_env={"GORACE": "halt_on_error=0"},
-                                         keep_logs=True, mem_kb=None)
+                                         keep_logs=True, mem_kb=None, allow_nonzero=True)  # go test exits 1 when the detector fired
             races = 0
             sites = set()
             for i in range(8):
